@@ -105,6 +105,7 @@ TRetNext ==
      \/ /\ E.r = "closed" /\ NextClosed(o)
      \/ /\ E.r = "timeout" /\ Chk(TimeGuard(o), "time") /\ NextTimeoutCore(o)
      \/ /\ E.r = "noop" /\ phase[o] = "stream" /\ sstate[o] # "Active" /\ UNCHANGED vars
+     \/ /\ E.r = "aderr" /\ NextAdapterErr(o)
   /\ Chk(sstate'[E.o] = E.st, "stream")
 
 (* what the innermost tap saw: a reference / intermediate message absorbed by EntriesOnly is a step of its own;
@@ -170,13 +171,14 @@ TDrvRecv ==
 TDrvExit ==
   /\ Is("DrvExit") /\ Adv /\ Keep
   /\ \/ drv = E.how /\ UNCHANGED vars                     \* already exited in the model (failed send)
-     \/ drv = "run" /\ (DrvEof \/ DrvReqClosed \/ DrvRecvBad) /\ drv' = E.how
+     \/ drv = "run" /\ (DrvEof \/ DrvReqClosed \/ DrvRecvBad \/ DrvRecvBadDone) /\ drv' = E.how
 
 (* ----------------------------- server / environment ----------------------------- *)
 TSrvSend == /\ Is("SrvSend") /\ Adv /\ Keep
             /\ \E r \in c2s : r.id = E.id /\ ~r.fin /\ SrvSend(r, E.typ) /\ tok' = E.tok
 TSrvOrphan == Is("SrvOrphan") /\ Adv /\ Keep /\ SrvOrphan(E.id, E.typ) /\ tok' = E.tok
 TSrvGarbage == Is("SrvGarbage") /\ Adv /\ Keep /\ SrvGarbage
+TSrvBadDone == Is("SrvBadDone") /\ Adv /\ Keep /\ \E r \in c2s : r.id = E.id /\ ~r.fin /\ SrvBadDone(r)
 TSrvClose == Is("SrvClose") /\ Adv /\ Keep /\ SrvClose(E.how)
 (* the peer stops reading / reads again; WBlocked is logged by the transport the first time a write finds the peer not
    reading: the driver is now inside stream.send() and serves nothing else until the write completes (its DrvOp event) *)
@@ -195,6 +197,7 @@ TTick == Is("Tick") /\ Adv /\ Keep /\ Chk(~TimerDue, "time") /\ TickCore /\ now'
 (* at the quiescent point everything the model put on the wire has been read by the scripted server (C13: Abandon sends
    an AbandonRequest naming the given ID - also for an ID that is no longer routed) *)
 TQuiet == /\ Is("Quiet") /\ Adv /\ Keep /\ UNCHANGED vars
+          /\ Chk(scrubQ = <<>> /\ reqQ = <<>>, "quiet:pending")      \* the system is idle: what the model still has queued was never sent
           /\ Chk(\A r \in c2s : r.kind = "abandon" => r.id \in seen, "wire:missing:abandon")
           /\ Chk(\A r \in c2s : r.kind # "abandon" => r.id \in seen, "wire:missing")
           /\ Chk(SetOfSeq(E.used) \subseteq used, "quiet:more") /\ Chk(used \subseteq SetOfSeq(E.used) /\ E.last = last, "quiet:less")
@@ -205,7 +208,7 @@ TIgnored == (Is("IdRelease")) /\ Adv /\ Keep /\ UNCHANGED vars
 Explained ==
   \/ TSetLast \/ TCall \/ TStart \/ TRet \/ TCallNext \/ TRetNext \/ TInner \/ TFinish \/ TDropHandles \/ TCancel \/ TStreamDrop
   \/ TDrvScrub \/ TDrvScrubX \/ TDrvOp \/ TDrvRecv \/ TDrvExit
-  \/ TSrvGot \/ TSrvSend \/ TSrvOrphan \/ TSrvGarbage \/ TSrvClose \/ TSrvStall \/ TSrvResume \/ TWBlocked \/ TTick \/ TQuiet \/ TClientClosed \/ TIgnored
+  \/ TSrvGot \/ TSrvSend \/ TSrvOrphan \/ TSrvGarbage \/ TSrvBadDone \/ TSrvClose \/ TSrvStall \/ TSrvResume \/ TWBlocked \/ TTick \/ TQuiet \/ TClientClosed \/ TIgnored
 
 (* Hang / Panic are observations no action explains *)
 TUnexplained ==
